@@ -155,7 +155,47 @@ func (vc *VC) instr(ins ssa.Instruction) {
 	case *ssa.MakeClosure:
 		a := vc.allocRef(x.Name())
 		vc.val[x] = a
-		// captured cells escape into the closure: nothing to do (cells live in C arrays)
+		// captured cells escape into the closure (cells live in C arrays). A closure under contract has
+		// its preconditions checked where it is created: the captured variables are per-iteration
+		// variables that are not assigned afterwards, and the library runs the closure later.
+		if fn, ok := x.Fn.(*ssa.Function); ok {
+			if con := vc.e.cs.Funcs[vc.e.fname(fn)]; con != nil && len(con.Requires) > 0 {
+				ce := &cenv{vc: vc, vars: map[string]cval{}, heap: vc.cur, old: vc.cur, allocOld: vc.cur.alloc}
+				for i, fv := range fn.FreeVars {
+					if i >= len(x.Bindings) {
+						break
+					}
+					b := x.Bindings[i]
+					et := deref(fv.Type())
+					if isStruct(et) {
+						ce.vars[fv.Name()] = cval{t: vc.v(b), typ: et, atRef: true}
+					} else {
+						n, s := vc.e.cellArr(et)
+						ce.vars[fv.Name()] = cval{t: Sel(vc.arrCur(n, s), vc.v(b)), typ: et}
+					}
+				}
+				props := con.Props
+				if len(props) == 0 {
+					props = sp
+				}
+				for _, r := range con.Requires {
+					if r.Auto {
+						continue
+					}
+					ce.err = nil
+					t := ce.eval(r.Expr)
+					if ce.err != nil {
+						vc.unsupp("closure requires %q: %v", r.Text, ce.err)
+						continue
+					}
+					pr := props
+					if len(r.Props) > 0 {
+						pr = r.Props
+					}
+					vc.check("requires", x.Pos(), con.Fn+": "+r.Text, t.t, pr)
+				}
+			}
+		}
 	case *ssa.MapUpdate:
 		vc.mapUpdate(x)
 	case *ssa.Range:
@@ -324,6 +364,8 @@ func (vc *VC) indexAddr(x *ssa.IndexAddr) {
 		vc.check("bounds", x.Pos(), "", And(Ge(i, "0"), Lt(i, sx("s_len", s))), sp)
 		n, srt := vc.e.elemArr(u.Elem())
 		vc.lv[x] = &LV{arr: n, sort: srt, idx: []Term{sx("s_arr", s), Add(sx("s_off", s), i)}, typ: u.Elem(), nnKey: vc.e.typeName(x.X.Type()), elemOf: vc.fromField[x.X]}
+		// make the element known as elt(E, s, i) too: this is the trigger of quantified contracts
+		vc.once(Eq(vc.eltTerm(u.Elem(), vc.arrCur(n, srt), s, i), Sel(Sel(vc.arrCur(n, srt), sx("s_arr", s)), Add(sx("s_off", s), i))))
 	case *types.Pointer:
 		at := u.Elem().Underlying().(*types.Array)
 		p := vc.v(x.X)
@@ -454,7 +496,7 @@ func (vc *VC) disciplineStore(x *ssa.Store, l *LV, v Term) {
 		if st, ok := l.typ.Underlying().(*types.Slice); ok {
 			en, es := vc.e.elemArr(st.Elem())
 			E := vc.arrCur(en, es)
-			q := fmt.Sprintf("(forall ((j Int)) (=> (and (<= 0 j) (< j (s_len %s))) (folded (select (select %s (s_arr %s)) (+ (s_off %s) j)))))", v, E, v, v)
+			q := fmt.Sprintf("(forall ((j Int)) (=> (and (<= 0 j) (< j (s_len %s))) (folded %s)))", v, vc.eltTerm(st.Elem(), E, v, "j"))
 			if ob := vc.check("folded-elems", x.Pos(), l.nnKey+" = "+vc.exprText(x.Pos()), q, []string{"C08"}); ob != nil {
 				ob.Detail = l.nnKey
 			}
@@ -862,7 +904,7 @@ func (vc *VC) next(x *ssa.Next) {
 		if vc.e.cs.NonNilElem[vc.e.typeName(r.X.Type())] {
 			vc.gfact(Imp(okc, Not(vc.isNil(vv, mt.Elem()))))
 		}
-		vc.gfact(Imp(Not(okc), fmt.Sprintf("(forall ((kk %s)) (! (=> (and (not (= %s 0)) (select %s kk)) (select %s kk)) :pattern ((select %s kk))))", ks, m, dom, vis, vis)))
+		vc.gfact(Imp(Not(okc), fmt.Sprintf("(forall ((kk %s)) (! (=> (and (not (= %s 0)) (select %s kk)) (select %s kk)) :pattern ((select %s kk)) :pattern ((select %s kk))))", ks, m, dom, vis, vis, dom)))
 		vc.setArr(it, s, Ite(okc, Sto(vis, k, "true"), vis))
 		vc.mapRangeKeyFacts(x, r, k)
 		vc.tuple[x] = []Term{okc, k, vv}
@@ -971,11 +1013,33 @@ func (vc *VC) ret(x *ssa.Return) {
 		_ = i
 		ce.result = append(ce.result, cval{t: vc.v(r), typ: r.Type()})
 	}
+	for _, ar := range vc.con.AtReturns {
+		vc.evalPos = x.Pos()
+		le := vc.envAt(vc.blk, vc.cur, nil)
+		vc.evalPos = token.NoPos
+		le.result = ce.result
+		le.resNm = ce.resNm
+		t := le.evalTop(ar.Expr, true)
+		if le.err != nil {
+			vc.unsupp("at_return %q: %v", ar.Text, le.err)
+			continue
+		}
+		pr := props
+		if len(ar.Props) > 0 {
+			pr = ar.Props
+		}
+		vc.check("at-return", x.Pos(), ar.Text, t.t, pr)
+	}
 	for _, bc := range vc.con.BodyCalls {
 		var reaches []Term
 		for _, blk := range vc.fn.Blocks {
 			for _, ins := range blk.Instrs {
 				if c, ok := ins.(*ssa.Call); ok {
+					if bi, ok := c.Call.Value.(*ssa.Builtin); ok && bi.Name() == bc.Fn {
+						if r, ok := vc.reach[blk.Index]; ok && vc.innermostLoop(blk.Index) < 0 {
+							reaches = append(reaches, r)
+						}
+					}
 					if g := c.Call.StaticCallee(); g != nil && (vc.e.fname(g) == bc.Fn || libName(g) == bc.Fn) {
 						if r, ok := vc.reach[blk.Index]; ok && vc.innermostLoop(blk.Index) < 0 {
 							reaches = append(reaches, r)
@@ -985,7 +1049,7 @@ func (vc *VC) ret(x *ssa.Return) {
 			}
 		}
 		ce.err = nil
-		t := ce.eval(bc.Cond)
+		t := ce.evalTop(bc.Cond, true)
 		if ce.err != nil {
 			vc.unsupp("body_calls %q: %v", bc.Text, ce.err)
 			continue
@@ -997,8 +1061,11 @@ func (vc *VC) ret(x *ssa.Return) {
 		vc.check("body-calls", token.NoPos, bc.Text, Eq(Or(reaches...), t.t), pr)
 	}
 	for _, c := range vc.con.Ensures {
+		if vc.con.Trusted != "" && !c.Auto {
+			continue // trusted contract: assumed at call sites, listed in the evidence, not verified here
+		}
 		ce.err = nil
-		t := ce.eval(c.Expr)
+		t := ce.evalTop(c.Expr, true)
 		if ce.err != nil {
 			vc.unsupp("ensures %q: %v", c.Text, ce.err)
 			continue
@@ -1007,6 +1074,6 @@ func (vc *VC) ret(x *ssa.Return) {
 		if len(c.Props) > 0 {
 			pr = c.Props
 		}
-		vc.check("ensures", token.NoPos, c.Text, t.t, pr)
+		vc.check("ensures", x.Pos(), c.Text, t.t, pr)
 	}
 }
